@@ -44,6 +44,29 @@ def unit_hashes(results):
     return out
 
 
+def check_lean(path):
+    """machine-check a Lean 4 (+ Mathlib) file; the verdict is cached under lemmas/.checked keyed by the file's hash (the
+    lemmas do not depend on /repo) and recomputed whenever the file changes or the cache is absent (fresh restore)"""
+    import hashlib, re, subprocess
+    text = open(path).read()
+    h = hashlib.sha256(text.encode()).hexdigest()[:16]
+    stamp = os.path.join(os.path.dirname(path), ".checked", os.path.basename(path) + "." + h)
+    theorems = re.findall(r"^theorem\s+(\w+)", text, flags=re.M)
+    if os.path.exists(stamp):
+        return {"file": os.path.relpath(path, ROOT), "sha256_16": h, "theorems": theorems, "ok": True, "cached": True, "output": ""}
+    t0 = time.time()
+    try:
+        r = subprocess.run(["lean", path], capture_output=True, text=True, timeout=1200)
+        ok, out = r.returncode == 0 and "error" not in r.stdout.lower() and "sorry" not in (r.stdout + text).lower(), (r.stdout + r.stderr)[-600:]
+    except Exception as e:
+        ok, out = False, repr(e)
+    if ok:
+        os.makedirs(os.path.dirname(stamp), exist_ok=True)
+        open(stamp, "w").write("accepted by lean\n")
+    return {"file": os.path.relpath(path, ROOT), "sha256_16": h, "theorems": theorems, "ok": ok, "cached": False,
+            "seconds": round(time.time() - t0, 1), "output": out}
+
+
 def run_property(prop, tier, seed, args):
     from . import runner, smt
     t_start = time.time()
@@ -165,6 +188,13 @@ def run_property(prop, tier, seed, args):
         elif ledger is None:
             checker_errors.append("no ledger for this property (run ./check PROP --update-ledger on the unchanged tree)")
 
+    # ------------------------------------------------------------------ Lean lemmas over the contracts
+    lean_results = []
+    for rel in (getattr(mod, "LEAN_FILES", []) if mod else []):
+        lean_results.append(check_lean(os.path.join(ROOT, rel)))
+        if not lean_results[-1]["ok"]:
+            checker_errors.append(f"Lean lemma file {rel} is not accepted: {lean_results[-1]['output'][:300]}")
+
     # ------------------------------------------------------------------ bounded stand-ins
     bounded = []
     smod = None
@@ -280,6 +310,8 @@ def run_property(prop, tier, seed, args):
         ev["level"] = declared
         if declared == "other":
             cov["explanation"] = getattr(mod, "LEVEL_REASON", "level lowered by the contracts module")
+    if lean_results:
+        cov["lean_lemmas"] = lean_results
     ev["coverage"] = cov
     ev["assumptions"] = ASSUMPTIONS_COMMON + (list(getattr(mod, "ASSUMPTIONS", [])) if mod else []) + \
         (list(getattr(smod, "ASSUMPTIONS", [])) if smod else [])
